@@ -36,15 +36,15 @@ type KnownFinding struct {
 }
 
 type Ctx struct {
-	P      *Program
-	Prop   string
-	Tier   string
-	Obs    []*Obligation
-	Stats  map[string]int
-	seen   map[string]bool
+	P       *Program
+	Prop    string
+	Tier    string
+	Obs     []*Obligation
+	Stats   map[string]int
+	seen    map[string]bool
 	seenMsg map[string]bool
-	Notes  []string
-	rule   string
+	Notes   []string
+	rule    string
 }
 
 func NewCtx(p *Program, prop, tier string) *Ctx {
@@ -244,20 +244,20 @@ func (c *Ctx) writeEvidence(verifDir string, info propInfo, wall float64, violat
 		}
 	}
 	cov := map[string]any{
-		"explanation":     info.Explanation,
-		"obligations":     len(c.Obs),
-		"discharged":      discharged,
-		"known_findings":  knownHits,
-		"checker_cmd":     fmt.Sprintf("/verif/bin/fscheck check -prop %s -tier %s -repo %s", c.Prop, c.Tier, c.P.RepoDir),
-		"trusted_base":    []string{"go/types and go/ssa (golang.org/x/tools v0.29.0)", "the Go memory model and the documented contracts of sync, sync/atomic, time, context, errors, reflect, net/http, grpc", "user callbacks do not reach unexported library state", "integer arithmetic treated as mathematical (no overflow) inside decision tables", "spec tables in fscheck (written from the property statements and the repo's doc comments; DESIGN.md Appendix C)"},
-		"exhaustive":      true,
-		"rule":            "every construct of /repo's current tree matching a rule template is one obligation; all are evaluated; an obligation that cannot be decided fails",
+		"explanation":          info.Explanation,
+		"obligations":          len(c.Obs),
+		"discharged":           discharged,
+		"known_findings":       knownHits,
+		"checker_cmd":          fmt.Sprintf("/verif/bin/fscheck check -prop %s -tier %s -repo %s", c.Prop, c.Tier, c.P.RepoDir),
+		"trusted_base":         []string{"go/types and go/ssa (golang.org/x/tools v0.29.0)", "the Go memory model and the documented contracts of sync, sync/atomic, time, context, errors, reflect, net/http, grpc", "user callbacks do not reach unexported library state", "integer arithmetic treated as mathematical (no overflow) inside decision tables", "spec tables in fscheck (written from the property statements and the repo's doc comments; DESIGN.md Appendix C)"},
+		"exhaustive":           true,
+		"rule":                 "every construct of /repo's current tree matching a rule template is one obligation; all are evaluated; an obligation that cannot be decided fails",
 		"obligations_per_rule": ruleCount,
-		"analysed":        c.Stats,
-		"packages":        len(c.P.Pkgs),
-		"functions_in_scope": len(c.P.Funcs),
-		"not_decided":     info.NotDecided,
-		"samples":         samples,
+		"analysed":             c.Stats,
+		"packages":             len(c.P.Pkgs),
+		"functions_in_scope":   len(c.P.Funcs),
+		"not_decided":          info.NotDecided,
+		"samples":              samples,
 	}
 	if len(c.Notes) > 0 {
 		cov["notes"] = c.Notes
